@@ -125,7 +125,12 @@ func genC14(g *Rng, tier string, emit func(Op)) {
 		}
 		var builders gabi.ProofBuilderList
 		var kps []*KeyPair
+		// sessions alternate between the default context (1, also sent as "no context") and an
+		// explicit one: what one session sends must not influence the next (one server process)
 		context := bi(1)
+		if r%2 == 1 {
+			context = g.bits(256)
+		}
 		for i := 0; i < n; i++ {
 			kp := pool[g.intn(len(pool))]
 			kps = append(kps, kp)
@@ -202,9 +207,13 @@ func genC14(g *Rng, tier string, emit func(Op)) {
 		honest := "ok:" + showInt(challenge) // both sides compute the same challenge
 		hw := commReq.HashedUserCommitments
 		in := respReq.UserChallengeInput
+		if context.Cmp(bi(1)) == 0 {
+			// first, so that it directly follows the previous session's requests (explicit context)
+			emit(ksOp(partIDs, kssSecret, kssRand, hw, nil, nonce, respReq.UserResponse, issig, in, "honest-nil-context", honest))
+		}
 		emit(ksOp(partIDs, kssSecret, kssRand, hw, context, nonce, respReq.UserResponse, issig, in, "honest", honest))
-		emit(ksOp(partIDs, kssSecret, kssRand, hw, nil, nonce, respReq.UserResponse, issig, in, "honest-nil-context", honest))
 		// the joint proof list verifies for total secret = user + server share
+		respReq.Context = context // the caller fills in the session's context (absent = 1)
 		proofP, err := gabi.KeyshareResponse(kssSecret, kssRand, commReq, respReq, part)
 		if err != nil {
 			panic(err)
